@@ -28,7 +28,8 @@ TIERS = {
     "quick": {"worlds": 260, "wall": 170, "cap": 20, "limit": 120.0, "max_points": 44},
     "thorough": {"worlds": 2000, "wall": 1700, "cap": 60, "limit": 300.0, "max_points": 160},
 }
-GATES = ("fired.lin.inner_splu", "fired.lin.inner_gmres", "fired.eval.obj", "fired.eval.grad", "fired.eval.cons", "fired.eval.jac", "fired.eval.hess", "fired.lin.factor", "fired.lin.solve", "trials.discarded", "fired.region", "fired.x0", "fired.lin.obs_solve", "worlds.display_rows")
+# (the scipy-level positions are reach *probes*, not gates: that layer hangs on how the wrappers look scipy up)
+GATES = ("fired.eval.obj", "fired.eval.grad", "fired.eval.cons", "fired.eval.jac", "fired.eval.hess", "fired.lin.factor", "fired.lin.solve", "trials.discarded", "fired.region", "fired.x0", "fired.lin.obs_solve", "worlds.display_rows")
 COMPS = ("obj", "grad", "cons", "jac", "hess")
 
 
